@@ -698,7 +698,9 @@ impl Network {
                         }
 
                         if let Some(old) = &valid_scratchpad {
-                            if old.count() >= scratchpad.count() {
+                            // equal counts are ordered by the pads themselves, so that the choice does
+                            // not depend on the order in which the answers are visited
+                            if (old.count(), old) >= (scratchpad.count(), &scratchpad) {
                                 info!(
                                     "Rejecting Scratchpad for {pretty_key} with lower count than the previous one"
                                 );
